@@ -1605,6 +1605,12 @@ def run(ctx: core.Ctx) -> None:
         "image): counted, not a violation; a builder failure with an exception type other than SPSDKError is counted per "
         "type@site (builder_error_type:*), not a violation",
         "CMS signatures are verified, never compared; the signing time is not checked",
+        "key type x key supply is a full-product group in both tiers (first class in quick, every class within k=2 in thorough): "
+        "tree on RSA-2048 / RSA-4096 / P-256 / P-384 / P-521 x {key files named, auto-detected next to the certificate, auto-detected "
+        "in the legacy CST layout crts/ + keys/, sign-provider strings, fast authentication named / auto-detected}; CSF and IMG key "
+        "are on the same curve as the SRK (mixed-curve trees are not enumerated). The P-521 tree (one SRK; CSF / IMG keys with a "
+        "leading-zero X / Y coordinate) is made at the start of a run in the work directory from the committed P-521 private keys of "
+        "fixtures/keys with RFC 6979 signatures, i.e. byte-identical in every run and process",
     ]
 
 
